@@ -160,25 +160,37 @@ def annotate_module(modpath, src, ov, report):
                 if semi:
                     report['rule_counts']['R14.loop_tail_semicolon'] += 1
                 ins(cb, semi + '\n' + lp['end'], dict(meta_base, kind='loop_end', loop=k))
-        for kind, rx, text in fo.anchors:
+        for kind0, rx0, text in fo.anchors:
             body = src[it.sig_end + 1:it.end]
-            pos = None
             off = it.sig_end + 1
-            nth = 1
-            mo_n = re.search(r'#(\d+)$', rx)
-            if mo_n:
-                nth = int(mo_n.group(1))
-                rx = rx[:mo_n.start()]
-            seen = 0
-            for lm in re.finditer(r'[^\n]*\n', body):
-                if re.search(rx, lm.group(0)):
-                    seen += 1
-                    if seen == nth:
-                        pos = off + (lm.start() if kind == 'before' else lm.end())
-                        break
+            # `@after A ||| @before B`: alternatives that denote the same program point in the unchanged code; the first
+            # one that matches is used, so that a change to the line of one of them does not lose the anchor
+            alts = [(kind0, rx0)]
+            if ' ||| ' in rx0:
+                parts = rx0.split(' ||| ')
+                alts = [(kind0, parts[0].strip())]
+                for p_ in parts[1:]:
+                    k_, r_ = p_.strip().split(None, 1)
+                    alts.append((k_.lstrip('@'), r_.strip()))
+            pos = None
+            for kind, rx in alts:
+                nth = 1
+                mo_n = re.search(r'#(\d+)$', rx)
+                if mo_n:
+                    nth = int(mo_n.group(1))
+                    rx = rx[:mo_n.start()]
+                seen = 0
+                for lm in re.finditer(r'[^\n]*\n', body):
+                    if re.search(rx, lm.group(0)):
+                        seen += 1
+                        if seen == nth:
+                            pos = off + (lm.start() if kind == 'before' else lm.end())
+                            break
+                if pos is not None:
+                    break
             report['fragile_anchors'] += 1
             if pos is None:
-                report['lost_anchors'].append('%s: @%s %s' % (q, kind, rx))
+                report['lost_anchors'].append('%s: @%s %s' % (q, kind0, rx0))
                 continue
             ins(pos, text, dict(meta_base, kind='anchor'))
 
